@@ -1,8 +1,15 @@
 import VrpModel.Mirp
 import VrpProofs.Props.C15
+import VrpProofs.Lemmas.MirpGraph
+import Mathlib.Algebra.Order.Field.Rat
+import Mathlib.Tactic.Linarith
 
 /-!
 # C12 — MIRP graph enforces load/unload alternation and carries correct arc data
+
+Statements are about every *successful* build (`Mirp.build … = some m`: every helper call returned
+normally — a duplicate node name, a second `add_entry_arcs` that would re-use `Dum0`, an inverted
+window or a zero rate make the real code raise and are `none` here).
 -/
 namespace Vrp.C12
 open Vrp
@@ -11,5 +18,956 @@ open Vrp
 theorem new_vessel (size horizon : ℚ) :
     (Mirp.new size horizon).g.cap = some size ∧ (Mirp.new size horizon).g.init = some 0 ∧
     (Mirp.new size horizon).g.nodes = [⟨"Depot", 0, 0, none⟩] ∧ (Mirp.new size horizon).g.arcs = [] := ⟨rfl, rfl, rfl, rfl⟩
+
+/-- node at position `i` picks up a full cargo (supply visit or dummy pre-loaded vessel) -/
+def loading (m : Mirp) (i : ℕ) : Prop := m.g.demand i = -m.size
+/-- node at position `i` discharges a full cargo (demand visit) -/
+def discharging (m : Mirp) (i : ℕ) : Prop := m.g.demand i = m.size
+
+/-- port names declared by the `port` calls of a build -/
+def portNames : List MOp → List String
+  | [] => []
+  | .port nm _ _ _ :: rest => nm :: portNames rest
+  | _ :: rest => portNames rest
+
+/-- the structural invariant of MIRP graphs (you may add clauses needed to make it inductive) -/
+structure Inv (m : Mirp) : Prop where
+  graph : C15.Inv m.g
+  depot : m.g.nodes.head? = some ⟨"Depot", 0, 0, none⟩
+  /-- every non-depot node either loads or discharges a full cargo -/
+  kinds : ∀ i, 0 < i → i < m.g.nodes.length → loading m i ∨ discharging m i
+  /-- visit nodes of supply ports load, visit nodes of demand ports discharge, none is the depot -/
+  supplyNodes : ∀ p ∈ m.supply, ∀ nm ∈ m.nodesOf p, ∃ i, m.g.indexOf? nm = some i ∧ 0 < i ∧ loading m i
+  demandNodes : ∀ p ∈ m.demand, ∀ nm ∈ m.nodesOf p, ∃ i, m.g.indexOf? nm = some i ∧ 0 < i ∧ discharging m i
+  /-- arcs leaving the depot lead only to loading nodes; arcs between non-depot nodes alternate -/
+  fromDepot : ∀ e ∈ m.g.arcs, e.1.1 = 0 → e.1.2 ≠ 0 → loading m e.1.2
+  alternate : ∀ e ∈ m.g.arcs, e.1.1 ≠ 0 → e.1.2 ≠ 0 →
+      (loading m e.1.1 ∧ discharging m e.1.2) ∨ (discharging m e.1.1 ∧ loading m e.1.2)
+
+/-! ## helper lemmas -/
+
+theorem loading_iff {m m' : Mirp} (hs : m'.size = m.size) {i : ℕ} (hd : m'.g.demand i = m.g.demand i) :
+    loading m' i ↔ loading m i := by unfold loading; rw [hs, hd]
+
+theorem discharging_iff {m m' : Mirp} (hs : m'.size = m.size) {i : ℕ} (hd : m'.g.demand i = m.g.demand i) :
+    discharging m' i ↔ discharging m i := by unfold discharging; rw [hs, hd]
+
+/-- an arc filed under `(i, j)` is compatible with `fromDepot` / `alternate` -/
+def Allowed (m : Mirp) (i j : ℕ) : Prop :=
+  (i = 0 → j ≠ 0 → loading m j) ∧
+  (i ≠ 0 → j ≠ 0 → (loading m i ∧ discharging m j) ∨ (discharging m i ∧ loading m j))
+
+theorem allowed_to_depot (m : Mirp) (i : ℕ) : Allowed m i 0 :=
+  ⟨fun _ h => absurd rfl h, fun _ h => absurd rfl h⟩
+
+theorem allowed_from_depot {m : Mirp} {j : ℕ} (h : loading m j) : Allowed m 0 j :=
+  ⟨fun _ _ => h, fun h0 => absurd rfl h0⟩
+
+theorem allowed_ld {m : Mirp} {i j : ℕ} (hi : 0 < i) (h1 : loading m i) (h2 : discharging m j) :
+    Allowed m i j := ⟨fun h0 => by omega, fun _ _ => Or.inl ⟨h1, h2⟩⟩
+
+theorem allowed_dl {m : Mirp} {i j : ℕ} (hi : 0 < i) (h1 : discharging m i) (h2 : loading m j) :
+    Allowed m i j := ⟨fun h0 => by omega, fun _ _ => Or.inr ⟨h1, h2⟩⟩
+
+theorem Inv.nodes_pos {m : Mirp} (hinv : Inv m) : 0 < m.g.nodes.length := by
+  have := hinv.depot
+  cases hnodes : m.g.nodes with
+  | nil => rw [hnodes] at this; cases this
+  | cons a l => simp
+
+theorem Inv.depot_index {m : Mirp} (hinv : Inv m) : m.g.indexOf? "Depot" = some 0 :=
+  Graph.indexOf?_head hinv.depot
+
+theorem Inv.hi_depot {m : Mirp} (hinv : Inv m) : m.g.hi 0 = none := by
+  have := hinv.depot
+  rw [List.head?_eq_getElem?] at this
+  simp [Graph.hi, this]
+
+/-- same nodes, same port tables, every new arc is of an allowed kind -/
+theorem inv_of_nodes_eq {m m' : Mirp} (hinv : Inv m) (hsize : m'.size = m.size)
+    (hsup : m'.supply = m.supply) (hdem : m'.demand = m.demand) (hmap : m'.mapping = m.mapping)
+    (hn : m'.g.nodes = m.g.nodes) (hg : C15.Inv m'.g)
+    (harcs : ∀ e ∈ m'.g.arcs, e ∈ m.g.arcs ∨ Allowed m e.1.1 e.1.2) : Inv m' := by
+  have hl : ∀ i, loading m' i ↔ loading m i := fun i => loading_iff hsize (Graph.demand_congr hn i)
+  have hdc : ∀ i, discharging m' i ↔ discharging m i :=
+    fun i => discharging_iff hsize (Graph.demand_congr hn i)
+  have hidx : ∀ x, m'.g.indexOf? x = m.g.indexOf? x := Graph.indexOf?_congr hn
+  have hno : ∀ p, m'.nodesOf p = m.nodesOf p := fun p => by unfold Mirp.nodesOf; rw [hmap]
+  refine ⟨hg, by rw [hn]; exact hinv.depot, ?_, ?_, ?_, ?_, ?_⟩
+  · intro i h0 hlt
+    rw [hn] at hlt
+    rw [hl, hdc]; exact hinv.kinds i h0 hlt
+  · intro p hp nm hnm
+    rw [hsup] at hp; rw [hno] at hnm
+    obtain ⟨i, h1, h2, h3⟩ := hinv.supplyNodes p hp nm hnm
+    exact ⟨i, by rw [hidx]; exact h1, h2, (hl i).mpr h3⟩
+  · intro p hp nm hnm
+    rw [hdem] at hp; rw [hno] at hnm
+    obtain ⟨i, h1, h2, h3⟩ := hinv.demandNodes p hp nm hnm
+    exact ⟨i, by rw [hidx]; exact h1, h2, (hdc i).mpr h3⟩
+  · intro e he h0 hne
+    rw [hl]
+    rcases harcs e he with h | h
+    · exact hinv.fromDepot e h h0 hne
+    · exact h.1 h0 hne
+  · intro e he h0 hne
+    simp only [hl, hdc]
+    rcases harcs e he with h | h
+    · exact hinv.alternate e h h0 hne
+    · exact h.2 h0 hne
+
+/-- one `add_arc` between names whose positions form an allowed pair -/
+theorem inv_gAddArc {m : Mirp} (hinv : Inv m) (o d : String) (t c : ℚ)
+    (hal : ∀ i j, m.g.indexOf? o = some i → m.g.indexOf? d = some j → Allowed m i j) :
+    Inv { m with g := gAddArc m.g o d t c } := by
+  refine inv_of_nodes_eq hinv rfl rfl rfl rfl (gAddArc_nodes _ _ _ _ _) (gAddArc_inv _ _ _ _ _ hinv.graph) ?_
+  intro e he
+  change e ∈ (gAddArc m.g o d t c).arcs at he
+  rcases gAddArc_cases m.g o d t c with h | ⟨i, j, hi, hj, _, h⟩
+  · rw [h] at he; exact Or.inl he
+  · rw [h] at he
+    rcases mem_dictSet he with rfl | he
+    · exact Or.inr (hal i j hi hj)
+    · exact Or.inl he
+
+/-- appending one node that loads or discharges a full cargo -/
+theorem inv_append_node {m : Mirp} (hinv : Inv m) (g' : Graph) (n : Node)
+    (hn : g'.nodes = m.g.nodes ++ [n]) (ha : g'.arcs = m.g.arcs) (hg : C15.Inv g')
+    (hd : n.demand = -m.size ∨ n.demand = m.size) : Inv { m with g := g' } := by
+  have hlen := hinv.nodes_pos
+  have hl : ∀ i, i < m.g.nodes.length → (loading { m with g := g' } i ↔ loading m i) :=
+    fun i hi => loading_iff (m := m) (m' := { m with g := g' }) rfl (Graph.demand_append_old hn hi)
+  have hdc : ∀ i, i < m.g.nodes.length → (discharging { m with g := g' } i ↔ discharging m i) :=
+    fun i hi => discharging_iff (m := m) (m' := { m with g := g' }) rfl (Graph.demand_append_old hn hi)
+  have hends : ∀ e ∈ m.g.arcs, e.1.1 < m.g.nodes.length ∧ e.1.2 < m.g.nodes.length := by
+    intro e he
+    obtain ⟨ni, nj, h1, h2, _⟩ := hinv.graph.filed e he
+    exact ⟨(List.getElem?_eq_some_iff.mp h1).1, (List.getElem?_eq_some_iff.mp h2).1⟩
+  refine ⟨hg, ?_, ?_, ?_, ?_, ?_, ?_⟩
+  · show g'.nodes.head? = _
+    rw [hn, List.head?_append_of_ne_nil _ (by intro h; rw [h] at hlen; simp at hlen)]
+    exact hinv.depot
+  · intro i h0 hlt
+    change i < g'.nodes.length at hlt
+    rw [hn, List.length_append, List.length_singleton] at hlt
+    by_cases hi : i < m.g.nodes.length
+    · rw [hl i hi, hdc i hi]; exact hinv.kinds i h0 hi
+    · have hi' : i = m.g.nodes.length := by omega
+      subst hi'
+      have hnew : g'.demand m.g.nodes.length = n.demand := Graph.demand_append_new hn
+      rcases hd with hd | hd
+      · left; show g'.demand _ = -m.size; rw [hnew, hd]
+      · right; show g'.demand _ = m.size; rw [hnew, hd]
+  · intro p hp nm hnm
+    obtain ⟨i, h1, h2, h3⟩ := hinv.supplyNodes p hp nm hnm
+    exact ⟨i, Graph.indexOf?_append_old hn h1, h2, (hl i (Graph.indexOf?_lt h1)).mpr h3⟩
+  · intro p hp nm hnm
+    obtain ⟨i, h1, h2, h3⟩ := hinv.demandNodes p hp nm hnm
+    exact ⟨i, Graph.indexOf?_append_old hn h1, h2, (hdc i (Graph.indexOf?_lt h1)).mpr h3⟩
+  · intro e he h0 hne
+    change e ∈ g'.arcs at he
+    rw [ha] at he
+    rw [hl _ (hends e he).2]
+    exact hinv.fromDepot e he h0 hne
+  · intro e he h0 hne
+    change e ∈ g'.arcs at he
+    rw [ha] at he
+    rw [hl _ (hends e he).2, hl _ (hends e he).1, hdc _ (hends e he).2, hdc _ (hends e he).1]
+    exact hinv.alternate e he h0 hne
+
+/-- what a successful `add_node` of a full-cargo node gives -/
+theorem inv_addNode {m : Mirp} (hinv : Inv m) (nm : String) (d lo : ℚ) (hi : ERat)
+    (hd : d = -m.size ∨ d = m.size) (x : Option Bool)
+    (hok : (addNodeStep m.g nm d lo hi).2 = .ok x) :
+    Inv { m with g := (addNodeStep m.g nm d lo hi).1 } ∧
+    ({ m with g := (addNodeStep m.g nm d lo hi).1 } : Mirp).g.indexOf? nm = some m.g.nodes.length ∧
+    ({ m with g := (addNodeStep m.g nm d lo hi).1 } : Mirp).g.demand m.g.nodes.length = d := by
+  obtain ⟨hfresh, hn, ha⟩ := addNodeStep_ok hok
+  exact ⟨inv_append_node hinv _ _ hn ha (C15.addNodeStep_inv _ _ _ _ _ hinv.graph) hd,
+    Graph.indexOf?_append_new hn hfresh, Graph.demand_append_new hn⟩
+
+theorem Inv.supply_at {m : Mirp} (hinv : Inv m) {p nm : String} {i : ℕ} (hp : p ∈ m.supply)
+    (hnm : nm ∈ m.nodesOf p) (hi : m.g.indexOf? nm = some i) : 0 < i ∧ loading m i := by
+  obtain ⟨i', h1, h2, h3⟩ := hinv.supplyNodes p hp nm hnm
+  rw [hi] at h1; cases h1; exact ⟨h2, h3⟩
+
+theorem Inv.demand_at {m : Mirp} (hinv : Inv m) {p nm : String} {i : ℕ} (hp : p ∈ m.demand)
+    (hnm : nm ∈ m.nodesOf p) (hi : m.g.indexOf? nm = some i) : 0 < i ∧ discharging m i := by
+  obtain ⟨i', h1, h2, h3⟩ := hinv.demandNodes p hp nm hnm
+  rw [hi] at h1; cases h1; exact ⟨h2, h3⟩
+
+/-- same graph and size, new port tables whose visit nodes are of the right kind -/
+theorem inv_of_g_eq {m m' : Mirp} (hinv : Inv m) (hsize : m'.size = m.size) (hg : m'.g = m.g)
+    (hs : ∀ p ∈ m'.supply, ∀ nm ∈ m'.nodesOf p, ∃ i, m.g.indexOf? nm = some i ∧ 0 < i ∧ loading m i)
+    (hd : ∀ p ∈ m'.demand, ∀ nm ∈ m'.nodesOf p, ∃ i, m.g.indexOf? nm = some i ∧ 0 < i ∧ discharging m i) :
+    Inv m' := by
+  have hl : ∀ i, loading m' i ↔ loading m i := fun i => loading_iff hsize (by rw [hg])
+  have hdc : ∀ i, discharging m' i ↔ discharging m i := fun i => discharging_iff hsize (by rw [hg])
+  refine ⟨by rw [hg]; exact hinv.graph, by rw [hg]; exact hinv.depot, ?_, ?_, ?_, ?_, ?_⟩
+  · intro i h0 hlt
+    rw [hg] at hlt
+    rw [hl, hdc]; exact hinv.kinds i h0 hlt
+  · intro p hp nm hnm
+    obtain ⟨i, h1, h2, h3⟩ := hs p hp nm hnm
+    exact ⟨i, by rw [hg]; exact h1, h2, (hl i).mpr h3⟩
+  · intro p hp nm hnm
+    obtain ⟨i, h1, h2, h3⟩ := hd p hp nm hnm
+    exact ⟨i, by rw [hg]; exact h1, h2, (hdc i).mpr h3⟩
+  · intro e he h0 hne
+    rw [hg] at he
+    rw [hl]; exact hinv.fromDepot e he h0 hne
+  · intro e he h0 hne
+    rw [hg] at he
+    simp only [hl, hdc]; exact hinv.alternate e he h0 hne
+
+/-! ### `add_nodes` -/
+
+theorem loop_inv (port : String) (lvl init rate cap : ℚ) (fuel : ℕ) :
+    ∀ (m : Mirp) (k : ℕ) (acc : List String) (m' : Mirp) (r : Except Err (List String)),
+      Inv m →
+      ((port ∈ m.supply ∧ port ∉ m.demand ∧ lvl = -m.size) ∨
+        (port ∈ m.demand ∧ port ∉ m.supply ∧ lvl = m.size)) →
+      m.nodesOf port = acc →
+      addNodesLoop fuel m port lvl init rate cap k acc = some (m', r) →
+      Inv m' ∧ m'.size = m.size ∧ m'.supply = m.supply ∧ m'.demand = m.demand := by
+  induction fuel with
+  | zero => intro m k acc m' r _ _ _ h; simp [addNodesLoop] at h
+  | succ fuel ih =>
+    intro m k acc m' r hinv hport hacc h
+    rw [addNodesLoop_succ] at h
+    split_ifs at h with hhor
+    · cases h; exact ⟨hinv, rfl, rfl, rfl⟩
+    · split at h
+      · cases h; exact ⟨hinv, rfl, rfl, rfl⟩
+      · rename_i x hok
+        have hlvl : lvl = -m.size ∨ lvl = m.size := by
+          rcases hport with h | h
+          · exact Or.inl h.2.2
+          · exact Or.inr h.2.2
+        obtain ⟨hI, hidx, hdem⟩ := inv_addNode hinv (visitName port k) lvl _ _ hlvl x hok
+        have hpos := hinv.nodes_pos
+        have hres := fun a b c => ih _ (k + 1) (acc ++ [visitName port k]) m' r a b c h
+        refine hres ?_ ?_ ?_
+        · refine inv_of_g_eq hI rfl rfl ?_ ?_
+          · intro p hp nm hnm
+            rw [nodesOf_of_mapSet (m := m) (k := port) (v := acc ++ [visitName port k]) rfl p] at hnm
+            split_ifs at hnm with hpk
+            · subst hpk
+              rcases hport with hc | hc
+              · rcases List.mem_append.mp hnm with hnm | hnm
+                · rw [← hacc] at hnm
+                  exact hI.supplyNodes p hc.1 nm hnm
+                · rw [List.mem_singleton] at hnm
+                  subst hnm
+                  exact ⟨_, hidx, hpos, by show _ = -m.size; rw [hdem]; exact hc.2.2⟩
+              · exact absurd hp hc.2.1
+            · exact hI.supplyNodes p hp nm hnm
+          · intro p hp nm hnm
+            rw [nodesOf_of_mapSet (m := m) (k := port) (v := acc ++ [visitName port k]) rfl p] at hnm
+            split_ifs at hnm with hpk
+            · subst hpk
+              rcases hport with hc | hc
+              · exact absurd hp hc.2.1
+              · rcases List.mem_append.mp hnm with hnm | hnm
+                · rw [← hacc] at hnm
+                  exact hI.demandNodes p hc.1 nm hnm
+                · rw [List.mem_singleton] at hnm
+                  subst hnm
+                  exact ⟨_, hidx, hpos, by show _ = m.size; rw [hdem]; exact hc.2.2⟩
+            · exact hI.demandNodes p hp nm hnm
+        · exact hport
+        · rw [nodesOf_of_mapSet (m := m) (k := port) (v := acc ++ [visitName port k]) rfl port]
+          simp
+
+theorem addNodes_inv {m : Mirp} (hinv : Inv m) (fuel : ℕ) (port : String) (init rate cap : ℚ)
+    (hfs : port ∉ m.supply) (hfd : port ∉ m.demand) (m' : Mirp) (r : Except Err (List String))
+    (h : m.addNodes fuel port init rate cap = some (m', r)) :
+    Inv m' ∧ m'.size = m.size ∧
+      (∀ p, p ∈ m'.supply ∨ p ∈ m'.demand → p ∈ m.supply ∨ p ∈ m.demand ∨ p = port) := by
+  unfold Mirp.addNodes at h
+  by_cases hr : 0 < rate
+  · simp only [hr, if_true] at h
+    have hres := fun a b c => loop_inv port _ init rate cap fuel _ 0 [] m' r a b c h
+    have hstart : Inv ({ m with supply := m.supply ++ [port],
+                                mapping := mapSet m.mapping port [] } : Mirp) := by
+      refine inv_of_g_eq hinv rfl rfl ?_ ?_
+      · intro p hp nm hnm
+        rw [nodesOf_of_mapSet (m := m) (k := port) (v := []) rfl p] at hnm
+        split_ifs at hnm with hpk
+        · cases hnm
+        · simp only [List.mem_append, List.mem_singleton] at hp
+          rcases hp with hp | hp
+          · exact hinv.supplyNodes p hp nm hnm
+          · exact absurd hp hpk
+      · intro p hp nm hnm
+        rw [nodesOf_of_mapSet (m := m) (k := port) (v := []) rfl p] at hnm
+        split_ifs at hnm with hpk
+        · cases hnm
+        · exact hinv.demandNodes p hp nm hnm
+    obtain ⟨h1, h2, h3, h4⟩ := hres hstart (Or.inl ⟨by simp, hfd, rfl⟩)
+      (by rw [nodesOf_of_mapSet (m := m) (k := port) (v := []) rfl port]; simp)
+    refine ⟨h1, h2, ?_⟩
+    intro p hp
+    rw [h3, h4] at hp
+    simp only [List.mem_append, List.mem_singleton] at hp
+    tauto
+  · simp only [hr, if_false] at h
+    have hres := fun a b c => loop_inv port _ init rate cap fuel _ 0 [] m' r a b c h
+    have hstart : Inv ({ m with demand := m.demand ++ [port],
+                                mapping := mapSet m.mapping port [] } : Mirp) := by
+      refine inv_of_g_eq hinv rfl rfl ?_ ?_
+      · intro p hp nm hnm
+        rw [nodesOf_of_mapSet (m := m) (k := port) (v := []) rfl p] at hnm
+        split_ifs at hnm with hpk
+        · cases hnm
+        · exact hinv.supplyNodes p hp nm hnm
+      · intro p hp nm hnm
+        rw [nodesOf_of_mapSet (m := m) (k := port) (v := []) rfl p] at hnm
+        split_ifs at hnm with hpk
+        · cases hnm
+        · simp only [List.mem_append, List.mem_singleton] at hp
+          rcases hp with hp | hp
+          · exact hinv.demandNodes p hp nm hnm
+          · exact absurd hp hpk
+    obtain ⟨h1, h2, h3, h4⟩ := hres hstart (Or.inr ⟨by simp, hfs, rfl⟩)
+      (by rw [nodesOf_of_mapSet (m := m) (k := port) (v := []) rfl port]; simp)
+    refine ⟨h1, h2, ?_⟩
+    intro p hp
+    rw [h3, h4] at hp
+    simp only [List.mem_append, List.mem_singleton] at hp
+    tauto
+
+/-! ### the arc-adding helpers keep the invariant -/
+
+theorem travelStep_inv {m : Mirp} (hinv : Inv m) (dist : String → String → ℚ) (speed unit : ℚ)
+    (sfee dfee : String → ℚ) {sp dp sn dn : String} (hsp : sp ∈ m.supply) (hdp : dp ∈ m.demand)
+    (hsn : sn ∈ m.nodesOf sp) (hdn : dn ∈ m.nodesOf dp) :
+    Inv { m with g := travelStep dist speed unit sfee dfee sp dp sn dn m.g } := by
+  have h1 := inv_gAddArc hinv sn dn (dist sp dp / speed) (dist sp dp * unit + dfee dp)
+    (fun i j hi hj => allowed_ld (hinv.supply_at hsp hsn hi).1 (hinv.supply_at hsp hsn hi).2
+      (hinv.demand_at hdp hdn hj).2)
+  exact inv_gAddArc h1 dn sn (dist sp dp / speed) (dist sp dp * unit + sfee sp)
+    (fun i j hi hj => allowed_dl (h1.demand_at hdp hdn hi).1 (h1.demand_at hdp hdn hi).2
+      (h1.supply_at hsp hsn hj).2)
+
+theorem addTravelArcs_inv {m : Mirp} (hinv : Inv m) (dist : String → String → ℚ) (speed unit : ℚ)
+    (sfee dfee : String → ℚ) : Inv (m.addTravelArcs dist speed unit sfee dfee) := by
+  rw [addTravelArcs_eq]
+  refine foldl_inv (fun g => Inv { m with g := g }) _ m.supply ?_ m.g hinv
+  intro g hg sp hsp
+  refine foldl_inv (fun g => Inv { m with g := g }) _ m.demand ?_ g hg
+  intro g hg dp hdp
+  refine foldl_inv (fun g => Inv { m with g := g }) _ (m.nodesOf sp) ?_ g hg
+  intro g hg sn hsn
+  refine foldl_inv (fun g => Inv { m with g := g }) _ (m.nodesOf dp) ?_ g hg
+  intro g hg dn hdn
+  exact travelStep_inv (m := { m with g := g }) hg dist speed unit sfee dfee hsp hdp hsn hdn
+
+theorem addExitArcs_inv {m : Mirp} (hinv : Inv m) (t c : ℚ) : Inv (m.addExitArcs t c) := by
+  rw [addExitArcs_eq]
+  refine foldl_inv (fun g => Inv { m with g := g }) _ (m.supply ++ m.demand) ?_ m.g hinv
+  intro g hg p _
+  refine foldl_inv (fun g => Inv { m with g := g }) _ (m.nodesOf p) ?_ g hg
+  intro g hg nm _
+  refine inv_gAddArc (m := { m with g := g }) hg nm "Depot" t c ?_
+  intro i j _ hj
+  have := hg.depot_index
+  rw [this] at hj; cases hj
+  exact allowed_to_depot _ i
+
+theorem entryG1_inv {m : Mirp} (hinv : Inv m) (limit time cost : ℚ) :
+    Inv { m with g := entryG1 m limit time cost } := by
+  unfold entryG1
+  refine foldl_inv (fun g => Inv { m with g := g }) _ m.supply ?_ m.g hinv
+  intro g hg p hp
+  refine foldl_inv (fun g => Inv { m with g := g }) _ (m.nodesOf p) ?_ g hg
+  intro g hg nm hnm
+  show Inv { m with g := if nodeHiLt g nm limit then gAddArc g "Depot" nm time cost else g }
+  split_ifs
+  · refine inv_gAddArc (m := { m with g := g }) hg "Depot" nm time cost ?_
+    intro i j hi hj
+    have := hg.depot_index
+    rw [this] at hi; cases hi
+    exact allowed_from_depot (hg.supply_at hp hnm hj).2
+  · exact hg
+
+theorem entryStep_inv {m : Mirp} (limit time cost : ℚ) {p nm : String} (hp : p ∈ m.demand)
+    (hnm : nm ∈ m.nodesOf p) (st : Option (Graph × ℕ))
+    (hst : ∀ g k, st = some (g, k) → Inv { m with g := g }) :
+    ∀ g k, entryStep m limit time cost st nm = some (g, k) → Inv { m with g := g } := by
+  intro g k hgk
+  rcases entryStep_cases m limit time cost st nm with h | h | ⟨g0, k0, x, hst0, hok, h⟩
+  · rw [h] at hgk; cases hgk
+  · rw [h] at hgk; exact hst g k hgk
+  · rw [h] at hgk
+    cases hgk
+    have hI := hst g0 k0 hst0
+    obtain ⟨ha, hidx, hdem⟩ := inv_addNode (m := { m with g := g0 }) hI ("Dum" ++ toString k0)
+      (-m.size) 0 none (Or.inl rfl) x hok
+    have hpos := hI.nodes_pos
+    have hb := inv_gAddArc ha "Depot" ("Dum" ++ toString k0) 0 0 (by
+      intro i j hi hj
+      rw [ha.depot_index] at hi; cases hi
+      rw [hidx] at hj; cases hj
+      exact allowed_from_depot hdem)
+    have hn := gAddArc_nodes (addNodeStep g0 ("Dum" ++ toString k0) (-m.size) 0 none).1 "Depot"
+      ("Dum" ++ toString k0) 0 0
+    refine inv_gAddArc hb ("Dum" ++ toString k0) nm time cost ?_
+    intro i j hi hj
+    have hi' : i = g0.nodes.length := by
+      have := Graph.indexOf?_congr hn ("Dum" ++ toString k0)
+      rw [this] at hi
+      rw [hidx] at hi; cases hi; rfl
+    subst hi'
+    refine allowed_ld hpos ?_ (hb.demand_at hp hnm hj).2
+    show (gAddArc _ _ _ _ _).demand _ = -m.size
+    rw [Graph.demand_congr hn]
+    exact hdem
+
+theorem addEntryArcs_inv {m : Mirp} (hinv : Inv m) (limit time cost : ℚ) (m' : Mirp)
+    (h : m.addEntryArcs limit time cost = some m') :
+    Inv m' ∧ m'.size = m.size ∧ m'.supply = m.supply ∧ m'.demand = m.demand := by
+  rw [addEntryArcs_eq, Option.map_eq_some_iff] at h
+  obtain ⟨⟨g, k⟩, hr, rfl⟩ := h
+  refine ⟨?_, rfl, rfl, rfl⟩
+  refine foldl_inv (fun st => ∀ g k, st = some (g, k) → Inv { m with g := g }) _ m.demand ?_
+    (some (entryG1 m limit time cost, 0)) ?_ g k hr
+  · intro st hst p hp
+    refine foldl_inv (fun st => ∀ g k, st = some (g, k) → Inv { m with g := g }) _ (m.nodesOf p) ?_
+      st hst
+    intro st hst nm hnm
+    exact entryStep_inv limit time cost hp hnm st hst
+  · intro g k hgk
+    cases hgk
+    exact entryG1_inv hinv limit time cost
+
+theorem step_port (m : Mirp) (fuel : ℕ) (nm : String) (i r c : ℚ) :
+    m.step fuel (.port nm i r c) =
+      if r = 0 then (m, .zerodiv) else
+      match m.addNodes fuel nm i r c with
+      | none => (m, .nonterm)
+      | some (m', .ok names) => (m', .ok names)
+      | some (m', .error e) => (m', .err e) := rfl
+
+theorem step_entry (m : Mirp) (fuel : ℕ) (l t c : ℚ) :
+    m.step fuel (.entry l t c) =
+      match m.addEntryArcs l t c with
+      | none => (m, .err .value)
+      | some m' => (m', .ok []) := rfl
+
+/-- one successful helper call keeps the invariant, the cargo size, and only a `port` call declares a port -/
+theorem step_inv {m : Mirp} (hinv : Inv m) (fuel : ℕ) (op : MOp)
+    (hfresh : ∀ p ∈ portNames [op], p ∉ m.supply ∧ p ∉ m.demand) (names : List String)
+    (hok : (m.step fuel op).2 = .ok names) :
+    Inv (m.step fuel op).1 ∧ (m.step fuel op).1.size = m.size ∧
+      (∀ p, p ∈ (m.step fuel op).1.supply ∨ p ∈ (m.step fuel op).1.demand →
+        p ∈ m.supply ∨ p ∈ m.demand ∨ p ∈ portNames [op]) := by
+  cases op with
+  | port nm i r c =>
+    have hf := hfresh nm (by simp [portNames])
+    rw [step_port] at hok ⊢
+    by_cases hr : r = 0
+    · simp [hr] at hok
+    · simp only [hr, if_false] at hok ⊢
+      cases ha : m.addNodes fuel nm i r c with
+      | none => rw [ha] at hok; simp at hok
+      | some res =>
+        obtain ⟨m', res⟩ := res
+        obtain ⟨h1, h2, h3⟩ := addNodes_inv hinv fuel nm i r c hf.1 hf.2 m' res ha
+        cases res with
+        | error e => rw [ha] at hok; simp at hok
+        | ok nms =>
+          simp only
+          refine ⟨h1, h2, ?_⟩
+          intro p hp
+          rcases h3 p hp with h | h | h
+          · exact Or.inl h
+          · exact Or.inr (Or.inl h)
+          · exact Or.inr (Or.inr (by simp [portNames, h]))
+  | travel sp u dist sf df =>
+    exact ⟨addTravelArcs_inv hinv _ _ _ _ _, rfl, fun p hp => by
+      rcases hp with hp | hp
+      · exact Or.inl hp
+      · exact Or.inr (Or.inl hp)⟩
+  | exit t c =>
+    exact ⟨addExitArcs_inv hinv _ _, rfl, fun p hp => by
+      rcases hp with hp | hp
+      · exact Or.inl hp
+      · exact Or.inr (Or.inl hp)⟩
+  | entry l t c =>
+    rw [step_entry] at hok ⊢
+    cases ha : m.addEntryArcs l t c with
+    | none => rw [ha] at hok; simp at hok
+    | some m' =>
+      obtain ⟨h1, h2, h3, h4⟩ := addEntryArcs_inv hinv l t c m' ha
+      simp only
+      refine ⟨h1, h2, ?_⟩
+      intro p hp
+      rw [h3, h4] at hp
+      rcases hp with hp | hp
+      · exact Or.inl hp
+      · exact Or.inr (Or.inl hp)
+
+theorem portNames_cons (op : MOp) (ops : List MOp) : portNames (op :: ops) = portNames [op] ++ portNames ops := by
+  cases op <;> simp [portNames]
+
+theorem build_inv_gen (fuel : ℕ) (ops : List MOp) :
+    ∀ (m m' : Mirp), Inv m → (portNames ops).Nodup →
+      (∀ p ∈ portNames ops, p ∉ m.supply ∧ p ∉ m.demand) →
+      Mirp.build fuel m ops = some m' → Inv m' ∧ m'.size = m.size := by
+  induction ops with
+  | nil =>
+    intro m m' hinv _ _ h
+    simp only [Mirp.build, Option.some.injEq] at h
+    subst h; exact ⟨hinv, rfl⟩
+  | cons op rest ih =>
+    intro m m' hinv hnd hfresh h
+    rw [portNames_cons] at hnd hfresh
+    unfold Mirp.build at h
+    cases hres : (m.step fuel op).2 with
+    | ok names =>
+      rw [hres] at h
+      simp only at h
+      obtain ⟨h1, h2, h3⟩ := step_inv hinv fuel op
+        (fun p hp => hfresh p (List.mem_append_left _ hp)) names hres
+      obtain ⟨r1, r2⟩ := ih _ m' h1 (List.Nodup.of_append_right hnd) (by
+        intro p hp
+        have hpf := hfresh p (List.mem_append_right _ hp)
+        have hdis : p ∉ portNames [op] := fun hmem =>
+          (List.nodup_append.mp hnd).2.2 p hmem p hp rfl
+        constructor
+        · intro hmem
+          rcases h3 p (Or.inl hmem) with h | h | h
+          · exact hpf.1 h
+          · exact hpf.2 h
+          · exact hdis h
+        · intro hmem
+          rcases h3 p (Or.inr hmem) with h | h | h
+          · exact hpf.1 h
+          · exact hpf.2 h
+          · exact hdis h) h
+      exact ⟨r1, r2.trans h2⟩
+    | err e => rw [hres] at h; simp at h
+    | zerodiv => rw [hres] at h; simp at h
+    | nonterm => rw [hres] at h; simp at h
+
+theorem inv_new (size horizon : ℚ) : Inv (Mirp.new size horizon) := by
+  refine ⟨⟨by simp [Mirp.new, Graph.names], ?_, by simp [Mirp.new], ?_⟩, rfl, ?_, ?_, ?_, ?_, ?_⟩
+  · intro n hn
+    simp only [Mirp.new, List.mem_singleton] at hn
+    subst hn; rfl
+  · intro e he; simp [Mirp.new] at he
+  · intro i h0 hlt
+    simp [Mirp.new] at hlt
+    omega
+  · intro p hp; simp [Mirp.new] at hp
+  · intro p hp; simp [Mirp.new] at hp
+  · intro e he; simp [Mirp.new] at he
+  · intro e he; simp [Mirp.new] at he
+
+/-! ## the property theorems -/
+
+/-- **every successful build satisfies the invariant**, whatever the order and number of helper calls,
+    provided the cargo size is positive and no port name is declared twice -/
+theorem build_inv (fuel : ℕ) (size horizon : ℚ) (hsize : 0 < size) (ops : List MOp)
+    (hports : (portNames ops).Nodup) (m : Mirp)
+    (h : Mirp.build fuel (Mirp.new size horizon) ops = some m) : Inv m ∧ m.size = size := by
+  have _ := hsize  -- not needed: the invariant is structural (exclusivity of the two kinds needs it later)
+  exact build_inv_gen fuel ops (Mirp.new size horizon) m (inv_new size horizon) hports
+    (fun p _ => ⟨by simp [Mirp.new], by simp [Mirp.new]⟩) h
+
+/-- a depot path: positions `0 = i₀, i₁, …, iₖ` with consecutive stored arcs, never back at the depot -/
+def IsPath (m : Mirp) : ℕ → List ℕ → Prop
+  | _, [] => True
+  | cur, j :: rest => m.g.hasArc cur j = true ∧ j ≠ 0 ∧ IsPath m j rest
+
+/-- vessel load after following a path from a given load (a visit adds `-demand`) -/
+def loadAfter (m : Mirp) (load : ℚ) : List ℕ → ℚ
+  | [] => load
+  | j :: rest => loadAfter m (load - m.g.demand j) rest
+
+/-- vessel state at a node: empty at the depot and after discharging, full after loading -/
+def St (m : Mirp) (cur : ℕ) (load : ℚ) : Prop :=
+  (cur = 0 ∧ load = 0) ∨ (cur ≠ 0 ∧ loading m cur ∧ load = m.size) ∨
+    (cur ≠ 0 ∧ discharging m cur ∧ load = 0)
+
+theorem hasArc_mem {g : Graph} {i j : ℕ} (h : g.hasArc i j = true) :
+    ∃ e ∈ g.arcs, e.1.1 = i ∧ e.1.2 = j := by
+  obtain ⟨e, he, hk⟩ := dictHas_iff.mp h
+  exact ⟨e, he, by rw [hk], by rw [hk]⟩
+
+theorem st_step (m : Mirp) (hsize : 0 < m.size) (hinv : Inv m) {cur j : ℕ} {load : ℚ}
+    (hst : St m cur load) (harc : m.g.hasArc cur j = true) (hj : j ≠ 0) :
+    St m j (load - m.g.demand j) := by
+  obtain ⟨e, he, he1, he2⟩ := hasArc_mem harc
+  have hexcl : ∀ i, loading m i → discharging m i → False := by
+    intro i h1 h2
+    have : -m.size = m.size := h1.symm.trans h2
+    linarith
+  rcases hst with ⟨h0, hload⟩ | ⟨h0, hl, hload⟩ | ⟨h0, hd, hload⟩
+  · have hlj : loading m j := by
+      have := hinv.fromDepot e he (he1.trans h0) (by rw [he2]; exact hj)
+      rwa [he2] at this
+    refine Or.inr (Or.inl ⟨hj, hlj, ?_⟩)
+    rw [hload, hlj]; linarith
+  · have := hinv.alternate e he (by rw [he1]; exact h0) (by rw [he2]; exact hj)
+    rw [he1, he2] at this
+    rcases this with ⟨_, hdj⟩ | ⟨hd, _⟩
+    · refine Or.inr (Or.inr ⟨hj, hdj, ?_⟩)
+      rw [hload, hdj]; linarith
+    · exact absurd hd (fun hd => hexcl cur hl hd)
+  · have := hinv.alternate e he (by rw [he1]; exact h0) (by rw [he2]; exact hj)
+    rw [he1, he2] at this
+    rcases this with ⟨hl, _⟩ | ⟨_, hlj⟩
+    · exact absurd hd (fun hd => hexcl cur hl hd)
+    · refine Or.inr (Or.inl ⟨hj, hlj, ?_⟩)
+      rw [hload, hlj]; linarith
+
+theorem path_st (m : Mirp) (hsize : 0 < m.size) (hinv : Inv m) :
+    ∀ (path : List ℕ) (cur : ℕ) (load : ℚ), St m cur load → IsPath m cur path →
+      St m (path.getLast?.getD cur) (loadAfter m load path) := by
+  intro path
+  induction path with
+  | nil => intro cur load hst _; simpa [loadAfter] using hst
+  | cons j rest ih =>
+    intro cur load hst hp
+    obtain ⟨harc, hj, hrest⟩ := hp
+    have := ih j (load - m.g.demand j) (st_step m hsize hinv hst harc hj) hrest
+    rw [List.getLast?_cons, Option.getD_some]
+    exact this
+
+theorem path_ne_zero (m : Mirp) : ∀ (path : List ℕ) (cur : ℕ), IsPath m cur path → ∀ j ∈ path, j ≠ 0 := by
+  intro path
+  induction path with
+  | nil => intro cur _ j hj; cases hj
+  | cons a rest ih =>
+    intro cur hp j hj
+    obtain ⟨_, ha, hrest⟩ := hp
+    rcases List.mem_cons.mp hj with h | h
+    · rw [h]; exact ha
+    · exact ih a hrest j h
+
+/-- **load alternation**: along every path from the depot (starting empty) the load after each stop is the
+    cargo size after a loading node and 0 after a discharging node — hence always in `{0, size}`, which is
+    what the path-based load check `0 ≤ load ≤ capacity` needs -/
+theorem load_alternates (m : Mirp) (hsize : 0 < m.size) (hinv : Inv m) (path : List ℕ) (hp : IsPath m 0 path)
+    (hne : path ≠ []) :
+    (loading m (path.getLast hne) → loadAfter m 0 path = m.size) ∧
+    (discharging m (path.getLast hne) → loadAfter m 0 path = 0) ∧
+    (loadAfter m 0 path = 0 ∨ loadAfter m 0 path = m.size) := by
+  have hst := path_st m hsize hinv path 0 0 (Or.inl ⟨rfl, rfl⟩) hp
+  rw [List.getLast?_eq_some_getLast hne, Option.getD_some] at hst
+  have hl0 : path.getLast hne ≠ 0 := path_ne_zero m path 0 hp _ (List.getLast_mem hne)
+  rcases hst with ⟨h0, _⟩ | ⟨_, hl, hload⟩ | ⟨_, hd, hload⟩
+  · exact absurd h0 hl0
+  · refine ⟨fun _ => hload, fun hd => ?_, Or.inr hload⟩
+    exact absurd (hl.symm.trans hd) (by intro h; linarith)
+  · refine ⟨fun hl => ?_, fun _ => hload, Or.inl hload⟩
+    exact absurd (hl.symm.trans hd) (by intro h; linarith)
+
+/-- **every regular node has an exit arc** once `add_exit_arcs` has been called with a non-negative… in
+    fact with any travel time: the depot window is `[0, ∞)`, so the timing filter always passes -/
+theorem exit_arc_every_regular_node (m : Mirp) (hinv : Inv m) (t c : ℚ) :
+    ∀ p ∈ m.supply ++ m.demand, ∀ nm ∈ m.nodesOf p,
+      ∃ i, (m.addExitArcs t c).g.indexOf? nm = some i ∧ (m.addExitArcs t c).g.hasArc i 0 = true := by
+  intro p hp nm hnm
+  obtain ⟨i, hi⟩ : ∃ i, m.g.indexOf? nm = some i := by
+    rcases List.mem_append.mp hp with h | h
+    · obtain ⟨i, h1, _⟩ := hinv.supplyNodes p h nm hnm; exact ⟨i, h1⟩
+    · obtain ⟨i, h1, _⟩ := hinv.demandNodes p h nm hnm; exact ⟨i, h1⟩
+  have hPstep : ∀ (g : Graph) (nm' : String), g.nodes = m.g.nodes →
+      (gAddArc g nm' "Depot" t c).nodes = m.g.nodes :=
+    fun g nm' h => (gAddArc_nodes _ _ _ _ _).trans h
+  have hPQstep : ∀ (g : Graph) (nm' : String), (g.nodes = m.g.nodes ∧ g.hasArc i 0 = true) →
+      ((gAddArc g nm' "Depot" t c).nodes = m.g.nodes ∧ (gAddArc g nm' "Depot" t c).hasArc i 0 = true) :=
+    fun g nm' h => ⟨(gAddArc_nodes _ _ _ _ _).trans h.1, gAddArc_hasArc_mono _ _ _ _ _ _ _ h.2⟩
+  have hest : ∀ g : Graph, g.nodes = m.g.nodes →
+      ((gAddArc g nm "Depot" t c).nodes = m.g.nodes ∧ (gAddArc g nm "Depot" t c).hasArc i 0 = true) := by
+    intro g hg
+    have h1 : g.indexOf? nm = some i := by rw [Graph.indexOf?_congr hg]; exact hi
+    have h2 : g.indexOf? "Depot" = some 0 := by rw [Graph.indexOf?_congr hg]; exact hinv.depot_index
+    have h3 : leE (g.lo i + t) (g.hi 0) = true := by rw [Graph.hi_congr hg, hinv.hi_depot]; rfl
+    rw [gAddArc_eq_of h1 h2 h3]
+    exact ⟨hg, dictHas_dictSet_self _ _ _⟩
+  have hfin := foldl_establish (fun g : Graph => g.nodes = m.g.nodes)
+    (fun g : Graph => g.nodes = m.g.nodes ∧ g.hasArc i 0 = true)
+    (fun g port => (m.nodesOf port).foldl (fun g nm => gAddArc g nm "Depot" t c) g)
+    (m.supply ++ m.demand) p hp
+    (fun g hg q _ => foldl_inv _ _ (m.nodesOf q) (fun g hg x _ => hPstep g x hg) g hg)
+    (fun g hg q _ => foldl_inv _ _ (m.nodesOf q) (fun g hg x _ => hPQstep g x hg) g hg)
+    (fun g hg => foldl_establish _ _ _ (m.nodesOf p) nm hnm (fun g hg x _ => hPstep g x hg)
+      (fun g hg x _ => hPQstep g x hg) hest g hg)
+    m.g rfl
+  rw [addExitArcs_eq]
+  exact ⟨i, by rw [Graph.indexOf?_congr hfin.1]; exact hi, hfin.2⟩
+
+theorem loop_arcs (port : String) (lvl init rate cap : ℚ) (fuel : ℕ) :
+    ∀ (m : Mirp) (k : ℕ) (acc : List String) (m' : Mirp) (r : Except Err (List String)),
+      addNodesLoop fuel m port lvl init rate cap k acc = some (m', r) → m'.g.arcs = m.g.arcs := by
+  induction fuel with
+  | zero => intro m k acc m' r h; simp [addNodesLoop] at h
+  | succ fuel ih =>
+    intro m k acc m' r h
+    rw [addNodesLoop_succ] at h
+    split_ifs at h with hhor
+    · cases h; rfl
+    · split at h
+      · cases h; rfl
+      · exact (ih _ _ _ m' r h).trans (addNodeStep_arcs _ _ _ _ _)
+
+theorem addNodes_arcs {m m' : Mirp} {fuel : ℕ} {port : String} {init rate cap : ℚ}
+    {r : Except Err (List String)} (h : m.addNodes fuel port init rate cap = some (m', r)) :
+    m'.g.arcs = m.g.arcs := by
+  unfold Mirp.addNodes at h
+  by_cases hr : 0 < rate
+  · simp only [hr, if_true] at h
+    have := loop_arcs _ _ _ _ _ _ _ _ _ _ _ h
+    exact this
+  · simp only [hr, if_false] at h
+    have := loop_arcs _ _ _ _ _ _ _ _ _ _ _ h
+    exact this
+
+theorem addEntryArcs_mono {m m' : Mirp} {limit time cost : ℚ} {i j : ℕ} (h : m.g.hasArc i j = true)
+    (ha : m.addEntryArcs limit time cost = some m') : m'.g.hasArc i j = true := by
+  rw [addEntryArcs_eq, Option.map_eq_some_iff] at ha
+  obtain ⟨⟨g, k⟩, hr, rfl⟩ := ha
+  show g.hasArc i j = true
+  refine foldl_inv (fun st : Option (Graph × ℕ) => ∀ g k, st = some (g, k) → g.hasArc i j = true) _
+    m.demand ?_ (some (entryG1 m limit time cost, 0)) ?_ g k hr
+  · intro st hst p _
+    refine foldl_inv (fun st : Option (Graph × ℕ) => ∀ g k, st = some (g, k) → g.hasArc i j = true) _
+      (m.nodesOf p) ?_ st hst
+    intro st hst nm _ g k hgk
+    rcases entryStep_cases m limit time cost st nm with h' | h' | ⟨g0, k0, x, hst0, _, h'⟩
+    · rw [h'] at hgk; cases hgk
+    · rw [h'] at hgk; exact hst g k hgk
+    · rw [h'] at hgk
+      cases hgk
+      refine gAddArc_hasArc_mono _ _ _ _ _ _ _ (gAddArc_hasArc_mono _ _ _ _ _ _ _ ?_)
+      unfold Graph.hasArc
+      rw [addNodeStep_arcs]
+      exact hst g0 k0 hst0
+  · intro g k hgk
+    cases hgk
+    unfold entryG1
+    refine foldl_inv (fun g : Graph => g.hasArc i j = true) _ m.supply ?_ m.g h
+    intro g hg p _
+    refine foldl_inv (fun g : Graph => g.hasArc i j = true) _ (m.nodesOf p) ?_ g hg
+    intro g hg nm _
+    show (if nodeHiLt g nm limit then gAddArc g "Depot" nm time cost else g).hasArc i j = true
+    split_ifs
+    · exact gAddArc_hasArc_mono _ _ _ _ _ _ _ hg
+    · exact hg
+
+/-- arcs are only ever added, never removed or re-keyed, by the arc-adding helpers (so exit arcs survive
+    later `add_travel_arcs` / `add_entry_arcs` calls) -/
+theorem arcs_monotone (fuel : ℕ) (m : Mirp) (op : MOp) (i j : ℕ)
+    (h : m.g.hasArc i j = true) : ((m.step fuel op).1).g.hasArc i j = true := by
+  cases op with
+  | port nm i0 r c =>
+    rw [step_port]
+    by_cases hr : r = 0
+    · simp only [hr, if_true]; exact h
+    · simp only [hr, if_false]
+      cases ha : m.addNodes fuel nm i0 r c with
+      | none => exact h
+      | some res =>
+        obtain ⟨m', res⟩ := res
+        have harcs : m'.g.arcs = m.g.arcs := addNodes_arcs ha
+        have : m'.g.hasArc i j = true := by unfold Graph.hasArc; rw [harcs]; exact h
+        cases res <;> exact this
+  | travel sp u dist sf df =>
+    show (m.addTravelArcs (lookupDist dist) sp u (lookupD sf) (lookupD df)).g.hasArc i j = true
+    rw [addTravelArcs_eq]
+    refine foldl_inv (fun g : Graph => g.hasArc i j = true) _ m.supply ?_ m.g h
+    intro g hg sp _
+    refine foldl_inv (fun g : Graph => g.hasArc i j = true) _ m.demand ?_ g hg
+    intro g hg dp _
+    refine foldl_inv (fun g : Graph => g.hasArc i j = true) _ (m.nodesOf sp) ?_ g hg
+    intro g hg sn _
+    refine foldl_inv (fun g : Graph => g.hasArc i j = true) _ (m.nodesOf dp) ?_ g hg
+    intro g hg dn _
+    exact gAddArc_hasArc_mono _ _ _ _ _ _ _ (gAddArc_hasArc_mono _ _ _ _ _ _ _ hg)
+  | exit t c =>
+    show (m.addExitArcs t c).g.hasArc i j = true
+    rw [addExitArcs_eq]
+    refine foldl_inv (fun g : Graph => g.hasArc i j = true) _ (m.supply ++ m.demand) ?_ m.g h
+    intro g hg p _
+    refine foldl_inv (fun g : Graph => g.hasArc i j = true) _ (m.nodesOf p) ?_ g hg
+    intro g hg nm _
+    exact gAddArc_hasArc_mono _ _ _ _ _ _ _ hg
+  | entry l t c =>
+    rw [step_entry]
+    cases ha : m.addEntryArcs l t c with
+    | none => exact h
+    | some m' => exact addEntryArcs_mono h ha
+
+/-- a property established by the two `add_arc` calls for one pair of visit nodes and kept by all the
+    other pairs holds after `add_travel_arcs` -/
+theorem travel_fold (m : Mirp) (dist : String → String → ℚ) (speed unit : ℚ) (sfee dfee : String → ℚ)
+    (PQ : Graph → Prop) {sp dp sn dn : String}
+    (hsp : sp ∈ m.supply) (hdp : dp ∈ m.demand) (hsn : sn ∈ m.nodesOf sp) (hdn : dn ∈ m.nodesOf dp)
+    (hkeep : ∀ sp' ∈ m.supply, ∀ dp' ∈ m.demand, ∀ sn' ∈ m.nodesOf sp', ∀ dn' ∈ m.nodesOf dp', ∀ g,
+      PQ g → PQ (travelStep dist speed unit sfee dfee sp' dp' sn' dn' g))
+    (hest : ∀ g : Graph, g.nodes = m.g.nodes → PQ (travelStep dist speed unit sfee dfee sp dp sn dn g)) :
+    PQ (m.addTravelArcs dist speed unit sfee dfee).g := by
+  rw [addTravelArcs_eq]
+  have hP4 : ∀ sp' dp' sn' dn' (g : Graph), g.nodes = m.g.nodes →
+      (travelStep dist speed unit sfee dfee sp' dp' sn' dn' g).nodes = m.g.nodes :=
+    fun sp' dp' sn' dn' g hg => (travelStep_nodes _ _ _ _ _ _ _ _ _ _).trans hg
+  have hP3 : ∀ sp' dp' sn' (g : Graph), g.nodes = m.g.nodes →
+      ((m.nodesOf dp').foldl (fun g dn => travelStep dist speed unit sfee dfee sp' dp' sn' dn g) g).nodes
+        = m.g.nodes :=
+    fun sp' dp' sn' g hg => foldl_inv (fun g : Graph => g.nodes = m.g.nodes) _ _
+      (fun g hg dn' _ => hP4 sp' dp' sn' dn' g hg) g hg
+  have hP2 : ∀ sp' dp' (g : Graph), g.nodes = m.g.nodes →
+      ((m.nodesOf sp').foldl (fun g sn => (m.nodesOf dp').foldl (fun g dn =>
+        travelStep dist speed unit sfee dfee sp' dp' sn dn g) g) g).nodes = m.g.nodes :=
+    fun sp' dp' g hg => foldl_inv (fun g : Graph => g.nodes = m.g.nodes) _ _
+      (fun g hg sn' _ => hP3 sp' dp' sn' g hg) g hg
+  have hP1 : ∀ sp' (g : Graph), g.nodes = m.g.nodes →
+      (m.demand.foldl (fun g dp => (m.nodesOf sp').foldl (fun g sn => (m.nodesOf dp).foldl (fun g dn =>
+        travelStep dist speed unit sfee dfee sp' dp sn dn g) g) g) g).nodes = m.g.nodes :=
+    fun sp' g hg => foldl_inv (fun g : Graph => g.nodes = m.g.nodes) _ _
+      (fun g hg dp' _ => hP2 sp' dp' g hg) g hg
+  have hQ3 : ∀ sp' ∈ m.supply, ∀ dp' ∈ m.demand, ∀ sn' ∈ m.nodesOf sp', ∀ g : Graph, PQ g →
+      PQ ((m.nodesOf dp').foldl (fun g dn => travelStep dist speed unit sfee dfee sp' dp' sn' dn g) g) :=
+    fun sp' hsp' dp' hdp' sn' hsn' g hg => foldl_inv PQ _ _
+      (fun g hg dn' hdn' => hkeep sp' hsp' dp' hdp' sn' hsn' dn' hdn' g hg) g hg
+  have hQ2 : ∀ sp' ∈ m.supply, ∀ dp' ∈ m.demand, ∀ g : Graph, PQ g →
+      PQ ((m.nodesOf sp').foldl (fun g sn => (m.nodesOf dp').foldl (fun g dn =>
+        travelStep dist speed unit sfee dfee sp' dp' sn dn g) g) g) :=
+    fun sp' hsp' dp' hdp' g hg => foldl_inv PQ _ _
+      (fun g hg sn' hsn' => hQ3 sp' hsp' dp' hdp' sn' hsn' g hg) g hg
+  have hQ1 : ∀ sp' ∈ m.supply, ∀ g : Graph, PQ g →
+      PQ (m.demand.foldl (fun g dp => (m.nodesOf sp').foldl (fun g sn => (m.nodesOf dp).foldl (fun g dn =>
+        travelStep dist speed unit sfee dfee sp' dp sn dn g) g) g) g) :=
+    fun sp' hsp' g hg => foldl_inv PQ _ _
+      (fun g hg dp' hdp' => hQ2 sp' hsp' dp' hdp' g hg) g hg
+  show PQ (List.foldl _ _ _)
+  refine foldl_establish (fun g : Graph => g.nodes = m.g.nodes) PQ _ m.supply sp hsp
+    (fun g hg sp' _ => hP1 sp' g hg) (fun g hg sp' hsp' => hQ1 sp' hsp' g hg) ?_ m.g rfl
+  intro g hg
+  refine foldl_establish (fun g : Graph => g.nodes = m.g.nodes) PQ _ m.demand dp hdp
+    (fun g hg dp' _ => hP2 sp dp' g hg) (fun g hg dp' hdp' => hQ2 sp hsp dp' hdp' g hg) ?_ g hg
+  intro g hg
+  refine foldl_establish (fun g : Graph => g.nodes = m.g.nodes) PQ _ (m.nodesOf sp) sn hsn
+    (fun g hg sn' _ => hP3 sp dp sn' g hg) (fun g hg sn' hsn' => hQ3 sp hsp dp hdp sn' hsn' g hg) ?_ g hg
+  intro g hg
+  exact foldl_establish (fun g : Graph => g.nodes = m.g.nodes) PQ _ (m.nodesOf dp) dn hdn
+    (fun g hg dn' _ => hP4 sp dp sn dn' g hg)
+    (fun g hg dn' hdn' => hkeep sp hsp dp hdp sn hsn dn' hdn' g hg) hest g hg
+
+/-- **travel arcs carry time = distance / speed and cost = distance × unit cost + fee of the destination
+    port**: what `add_travel_arcs` stores for a supply visit `sn` of port `sp` and a demand visit `dn` of `dp`
+    when the timing filter passes (in both directions); an arc already stored under the same key is
+    overwritten.  `hsize : m.size ≠ 0` is required: with cargo size 0 "loading" and "discharging"
+    coincide, one node `x` may be a visit of a supply port `A` and of a demand port `B`, and then the two
+    calls `add_arc(x, x, …, cost + dfee B)`, `add_arc(x, x, …, cost + sfee A)` write the same key `(i, i)`,
+    the second overwriting the first.  `hsup` / `hdem` are not needed. -/
+theorem travel_arc_data (m : Mirp) (hinv : Inv m) (hsize : m.size ≠ 0) (dist : String → String → ℚ) (speed unit : ℚ)
+    (sfee dfee : String → ℚ) (sp dp sn dn : String) (i j : ℕ)
+    (hsp : sp ∈ m.supply) (hdp : dp ∈ m.demand) (hsn : sn ∈ m.nodesOf sp) (hdn : dn ∈ m.nodesOf dp)
+    (hi : m.g.indexOf? sn = some i) (hj : m.g.indexOf? dn = some j)
+    (hsup : m.supply.Nodup) (hdem : m.demand.Nodup)
+    (hmapS : ∀ p ∈ m.supply, ∀ q ∈ m.supply, ∀ x, x ∈ m.nodesOf p → x ∈ m.nodesOf q → p = q)
+    (hmapD : ∀ p ∈ m.demand, ∀ q ∈ m.demand, ∀ x, x ∈ m.nodesOf p → x ∈ m.nodesOf q → p = q) :
+    let m' := m.addTravelArcs dist speed unit sfee dfee
+    (leE (m.g.lo i + dist sp dp / speed) (m.g.hi j) = true →
+      m'.g.arc? i j = some ⟨sn, dn, dist sp dp / speed, dist sp dp * unit + dfee dp⟩) ∧
+    (leE (m.g.lo j + dist sp dp / speed) (m.g.hi i) = true →
+      m'.g.arc? j i = some ⟨dn, sn, dist sp dp / speed, dist sp dp * unit + sfee sp⟩) := by
+  have _ := hsup  -- not needed: a repeated port repeats the same assignments
+  have _ := hdem
+  intro m'
+  have hexcl : ∀ a, loading m a → discharging m a → False := by
+    intro a h1 h2
+    have h3 : -m.size = m.size := h1.symm.trans h2
+    exact hsize (by linarith)
+  -- positions of visit nodes in any graph with the nodes of `m.g`
+  have hS : ∀ sp' ∈ m.supply, ∀ sn' ∈ m.nodesOf sp', ∀ g : Graph, g.nodes = m.g.nodes →
+      ∀ a, g.indexOf? sn' = some a → loading m a := by
+    intro sp' hsp' sn' hsn' g hg a ha
+    rw [Graph.indexOf?_congr hg] at ha
+    exact (hinv.supply_at hsp' hsn' ha).2
+  have hD : ∀ dp' ∈ m.demand, ∀ dn' ∈ m.nodesOf dp', ∀ g : Graph, g.nodes = m.g.nodes →
+      ∀ a, g.indexOf? dn' = some a → discharging m a := by
+    intro dp' hdp' dn' hdn' g hg a ha
+    rw [Graph.indexOf?_congr hg] at ha
+    exact (hinv.demand_at hdp' hdn' ha).2
+  have hli : loading m i := (hinv.supply_at hsp hsn hi).2
+  have hdj : discharging m j := (hinv.demand_at hdp hdn hj).2
+  -- a supply visit at position `i` is `sn` (of port `sp`), a demand visit at `j` is `dn` (of `dp`)
+  have hSeq : ∀ sp' ∈ m.supply, ∀ sn' ∈ m.nodesOf sp', ∀ g : Graph, g.nodes = m.g.nodes →
+      g.indexOf? sn' = some i → sn' = sn ∧ sp' = sp := by
+    intro sp' hsp' sn' hsn' g hg ha
+    rw [Graph.indexOf?_congr hg] at ha
+    have : sn' = sn := Graph.indexOf?_inj ha hi
+    subst this
+    exact ⟨rfl, hmapS sp' hsp' sp hsp sn' hsn' hsn⟩
+  have hDeq : ∀ dp' ∈ m.demand, ∀ dn' ∈ m.nodesOf dp', ∀ g : Graph, g.nodes = m.g.nodes →
+      g.indexOf? dn' = some j → dn' = dn ∧ dp' = dp := by
+    intro dp' hdp' dn' hdn' g hg ha
+    rw [Graph.indexOf?_congr hg] at ha
+    have : dn' = dn := Graph.indexOf?_inj ha hj
+    subst this
+    exact ⟨rfl, hmapD dp' hdp' dp hdp dn' hdn' hdn⟩
+  constructor
+  · intro ht
+    refine (travel_fold m dist speed unit sfee dfee
+      (fun g => g.nodes = m.g.nodes ∧
+        g.arc? i j = some ⟨sn, dn, dist sp dp / speed, dist sp dp * unit + dfee dp⟩)
+      hsp hdp hsn hdn ?_ ?_).2
+    · intro sp' hsp' dp' hdp' sn' hsn' dn' hdn' g hg
+      refine ⟨(travelStep_nodes _ _ _ _ _ _ _ _ _ _).trans hg.1, ?_⟩
+      unfold travelStep
+      refine gAddArc_arc?_keep (gAddArc_arc?_keep hg.2 ?_) ?_
+      · intro h1 h2
+        obtain ⟨rfl, rfl⟩ := hSeq sp' hsp' sn' hsn' g hg.1 h1
+        obtain ⟨rfl, rfl⟩ := hDeq dp' hdp' dn' hdn' g hg.1 h2
+        rfl
+      · intro h1 _
+        exact absurd (hD dp' hdp' dn' hdn' _ ((gAddArc_nodes _ _ _ _ _).trans hg.1) i h1) (hexcl i hli)
+    · intro g hg
+      refine ⟨(travelStep_nodes _ _ _ _ _ _ _ _ _ _).trans hg, ?_⟩
+      unfold travelStep
+      have h1 : g.indexOf? sn = some i := by rw [Graph.indexOf?_congr hg]; exact hi
+      have h2 : g.indexOf? dn = some j := by rw [Graph.indexOf?_congr hg]; exact hj
+      have h3 : leE (g.lo i + dist sp dp / speed) (g.hi j) = true := by
+        rw [Graph.lo_congr hg, Graph.hi_congr hg]; exact ht
+      refine gAddArc_arc?_keep ?_ ?_
+      · rw [gAddArc_eq_of h1 h2 h3]
+        exact dictGet_dictSet_self _ _ _
+      · intro h1' _
+        exact absurd (hD dp hdp dn hdn _ ((gAddArc_nodes _ _ _ _ _).trans hg) i h1') (hexcl i hli)
+  · intro ht
+    refine (travel_fold m dist speed unit sfee dfee
+      (fun g => g.nodes = m.g.nodes ∧
+        g.arc? j i = some ⟨dn, sn, dist sp dp / speed, dist sp dp * unit + sfee sp⟩)
+      hsp hdp hsn hdn ?_ ?_).2
+    · intro sp' hsp' dp' hdp' sn' hsn' dn' hdn' g hg
+      refine ⟨(travelStep_nodes _ _ _ _ _ _ _ _ _ _).trans hg.1, ?_⟩
+      unfold travelStep
+      refine gAddArc_arc?_keep (gAddArc_arc?_keep hg.2 ?_) ?_
+      · intro h1 _
+        exact absurd hdj (fun h => hexcl j (hS sp' hsp' sn' hsn' g hg.1 j h1) h)
+      · intro h1 h2
+        have hg1 := (gAddArc_nodes g sn' dn' (dist sp' dp' / speed) (dist sp' dp' * unit + dfee dp')).trans hg.1
+        obtain ⟨rfl, rfl⟩ := hDeq dp' hdp' dn' hdn' _ hg1 h1
+        obtain ⟨rfl, rfl⟩ := hSeq sp' hsp' sn' hsn' _ hg1 h2
+        rfl
+    · intro g hg
+      refine ⟨(travelStep_nodes _ _ _ _ _ _ _ _ _ _).trans hg, ?_⟩
+      unfold travelStep
+      have hg1 := (gAddArc_nodes g sn dn (dist sp dp / speed) (dist sp dp * unit + dfee dp)).trans hg
+      have h1 : (gAddArc g sn dn (dist sp dp / speed) (dist sp dp * unit + dfee dp)).indexOf? dn = some j := by
+        rw [Graph.indexOf?_congr hg1]; exact hj
+      have h2 : (gAddArc g sn dn (dist sp dp / speed) (dist sp dp * unit + dfee dp)).indexOf? sn = some i := by
+        rw [Graph.indexOf?_congr hg1]; exact hi
+      have h3 : leE ((gAddArc g sn dn (dist sp dp / speed) (dist sp dp * unit + dfee dp)).lo j +
+          dist sp dp / speed) ((gAddArc g sn dn (dist sp dp / speed) (dist sp dp * unit + dfee dp)).hi i) = true := by
+        rw [Graph.lo_congr hg1, Graph.hi_congr hg1]; exact ht
+      rw [gAddArc_eq_of h1 h2 h3]
+      exact dictGet_dictSet_self _ _ _
 
 end Vrp.C12
